@@ -7,6 +7,7 @@ import (
 	"runtime/debug"
 	"sort"
 	"strings"
+	"sync/atomic"
 	"syscall"
 	"testing"
 	"testing/synctest"
@@ -33,8 +34,23 @@ type Harness struct {
 
 var mapOrderChoice bool
 
+// abandon is set while an execution that ended WEDGED (deadlock in the code under
+// test) is torn down. With the scheduler inactive a shim operation that cannot
+// complete spins (sched.park / vsync.hook); a goroutine that waits for a mutex that
+// will never be released - e.g. one that locked a mutex it already holds - would
+// spin for ever and synctest.Wait() would never return (the whole shard hung until
+// the driver's hard kill). Such goroutines are parked durably instead and left
+// behind; the process leaves the bubble through os.Exit.
+var abandon atomic.Bool
+
 func install(s *sched.Sched) {
-	vsync.Hook = s.Hook
+	never := make(chan struct{}) // created inside the bubble: blocking on it is durable
+	vsync.Hook = func(kind string, obj any, ready func() bool) {
+		if abandon.Load() && !ready() {
+			<-never
+		}
+		s.Hook(kind, obj, ready)
+	}
 	vsync.MapDesc = func(site string) bool {
 		if !mapOrderChoice {
 			return false
@@ -135,12 +151,15 @@ func (h *Harness) Scenario() *sched.Scenario {
 			if h.n++; h.n%32 == 0 {
 				runtime.GC()
 			}
+			abandon.Store(false)
 			h.cur = newInst(h.sc, s)
 			h.cur.spawn()
 		},
 		Check: func(s *sched.Sched, x *sched.Exec) (string, []sched.Finding) {
 			out, fs := h.check(h.cur, x)
 			h.Last = fs
+			// tear-down of a wedged execution: see abandon
+			abandon.Store(x.Deadlock || len(x.Parked) > 0 || len(x.Unfinished) > 0 || x.Horizon)
 			return out, nil
 		},
 		Cleanup: func() {
@@ -363,7 +382,7 @@ func RunWith(t *testing.T, prop string, extra func(run *vk.Run, expired func() b
 			// pass 1 (thorough, >=2 subscribers): delay bound b-1 with at most one map
 			// range of the resolver taken in descending key order (a data choice).
 			passes := 1
-			if thorough && len(sc.sessions()) >= 2 {
+			if thorough && len(sc.sessions()) >= 2 && !sc.MapOrder {
 				passes = 2
 			}
 			if v := os.Getenv("VERIF_PASSES"); v != "" {
@@ -371,7 +390,7 @@ func RunWith(t *testing.T, prop string, extra func(run *vk.Run, expired func() b
 			}
 			for pass := 0; pass < passes; pass++ {
 				pb, tag := b, ""
-				mapOrderChoice = false
+				mapOrderChoice = sc.MapOrder
 				if pass == 1 {
 					pb, tag = b-1, " (map order)"
 					if thorough && sc.Deep[1] > 0 {
